@@ -8,6 +8,7 @@ let handlers : (t -> (int * string list) option) list = [
   Cmd_filter.handle;
   Cmd_cache.handle;
   Cmd_lister.handle;
+  Cmd_controller.handle;
 ]
 
 let () =
